@@ -327,6 +327,31 @@ class ArgumentParser:
             f"Compiler '{self.name}' recognized; aliases '{alias}'.",
         )
 
+    @staticmethod
+    def _attach_values(argv: list[str]) -> list[str]:
+        """
+        Rewrite -D, -I, -isystem and -include so that their value is always
+        attached to the flag. argparse cannot otherwise handle a value
+        attached to -isystem/-include (e.g. -isystem/dir), or a separate
+        value that starts with a dash (e.g. -I -dir).
+        """
+        result = []
+        i = 0
+        while i < len(argv):
+            arg = argv[i]
+            if arg in ["-D", "-I", "-isystem", "-include"] and i + 1 < len(argv):
+                separator = "=" if len(arg) > 2 else ""
+                arg = arg + separator + argv[i + 1]
+                i += 1
+            else:
+                for flag in ["-isystem", "-include"]:
+                    value = arg[len(flag) :]
+                    if arg.startswith(flag) and value and value[0] not in "-=":
+                        arg = flag + "=" + value
+            result.append(arg)
+            i += 1
+        return result
+
     def parse_args(self, argv: list[str]) -> list[PreprocessorConfiguration]:
         """
         Parameters
@@ -401,7 +426,7 @@ class ArgumentParser:
 
         # Make a best-effort attempt to parse arguments.
         args, unrecognized = parser.parse_known_args(
-            argv + self.compiler.options,
+            self._attach_values(argv + self.compiler.options),
             namespace,
         )
         if unrecognized:
